@@ -532,7 +532,79 @@ theorem boxcar_mean (mUb : ℕ) (mLb : Option ℕ) (x : List K) (hx : x ≠ []) 
     have hne : restoreDC (mean x) (boxLowpass mUb x) ≠ [] := by simpa [restoreDC] using hlen
     rw [highpass_stage_mean _ _ (boxLowpass_length m (h2 m rfl) _).symm hne, hx1]
 
+/-- the filter keeps the length of a lane (the shape clause, one lane) -/
+theorem boxcarFilter_length (mUb : ℕ) (mLb : Option ℕ) (x : List K) (h1 : 1 ≤ mUb)
+    (h2 : ∀ m, mLb = some m → 1 ≤ m) : (boxcarFilter mUb mLb x).length = x.length := by
+  have hl : (restoreDC (mean x) (boxLowpass mUb x)).length = x.length := by
+    simp [restoreDC, boxLowpass_length mUb h1 x]
+  cases mLb with
+  | none => simpa [boxcarFilter] using hl
+  | some m =>
+    simp only [boxcarFilter, List.length_map, List.length_zip, boxLowpass_length m (h2 m rfl), hl, Nat.min_self]
+
+/-- zipping a list with its image under `f` pairs every element with its own image -/
+theorem mem_zip_map {α β : Type} (f : α → β) : ∀ (l : List α) (p : α × β), p ∈ l.zip (l.map f) → p.2 = f p.1 := by
+  intro l
+  induction l with
+  | nil => intro p hp; simp at hp
+  | cons a t ih =>
+    intro p hp
+    simp only [List.map_cons, List.zip_cons_cons, List.mem_cons] at hp
+    rcases hp with rfl | hp
+    · rfl
+    · exact ih p hp
+
+/-- **the n-d boxcar filter keeps the shape and every lane's mean** (`boxcar_mean` lifted to the lanes of
+`boxcar_filter`'s input: the single lane of a 1-d array, the rows of a 2-d array): whenever `boxcarND` returns, it
+returns exactly one filtered lane per input lane, in order, each as long as its input lane and with the same mean.
+(Inputs with more than 2 dimensions and `n_iterations = 0` are refused: `boxcarND_refuses`.) -/
+theorem boxcarND_lanes (iters mUb : ℕ) (mLb : Option ℕ) (dims : List ℕ) (x : List K) (ls ys : List (List K))
+    (hl : boxLanes dims x = .ok ls) (h : boxcarND iters mUb mLb dims x = .ok ys) (h1 : 1 ≤ mUb)
+    (h2 : ∀ m, mLb = some m → 1 ≤ m) :
+    ys.length = ls.length ∧
+      ∀ p ∈ ls.zip ys, p.2.length = p.1.length ∧ (p.1 ≠ [] → mean p.2 = mean p.1) := by
+  unfold boxcarND at h
+  rw [hl] at h
+  simp only at h
+  split at h
+  · cases h
+  · cases h
+    refine ⟨by simp, ?_⟩
+    intro p hp
+    have hp2 := mem_zip_map (boxcarFilter mUb mLb) ls p hp
+    rw [hp2]
+    exact ⟨boxcarFilter_length mUb mLb p.1 h1 h2, fun hne => boxcar_mean mUb mLb p.1 hne h1 h2⟩
+
+/-- what `boxcar_filter` refuses: data with more than 2 dimensions (and at least one row), and
+`n_iterations = 0` whenever there is a lane to filter; 1-d and 2-d data with `n_iterations ≥ 1` are accepted -/
+theorem boxcarND_refuses (iters mUb : ℕ) (mLb : Option ℕ) (x : List K) :
+    (∀ r a b rest, r ≠ 0 → boxcarND iters mUb mLb (r :: a :: b :: rest) x = .error .valueError) ∧
+    (∀ n, boxcarND 0 mUb mLb [n] x = .error .unboundLocal) ∧
+    (∀ n, 1 ≤ iters → boxcarND iters mUb mLb [n] x = .ok [boxcarFilter mUb mLb x]) ∧
+    (∀ r n, 1 ≤ iters → boxcarND iters mUb mLb [r, n] x = .ok ((chunks n r x).map (boxcarFilter mUb mLb))) := by
+  refine ⟨?_, ?_, ?_, ?_⟩
+  · intro r a b rest hr; simp [boxcarND, boxLanes, hr]
+  · intro n; simp [boxcarND, boxLanes]
+  · intro n hi
+    have : iters ≠ 0 := by omega
+    simp [boxcarND, boxLanes, this]
+  · intro r n hi
+    have : iters ≠ 0 := by omega
+    simp [boxcarND, boxLanes, this]
+
+/-- the rows of a C-ordered `r × n` array: `chunks` returns `r` rows -/
+theorem chunks_length {α : Type} (n : ℕ) : ∀ (r : ℕ) (l : List α), (chunks n r l).length = r := by
+  intro r
+  induction r with
+  | zero => intro l; rfl
+  | succ r ih => intro l; simp [chunks, ih]
+
 end boxcar
+
+/-- non-vacuity: a 2 × 3 array comes back as 2 rows, row means 1 and 4 kept; 3-d data and 0 iterations are refused -/
+example : boxcarND 2 2 none [2, 3] ([0, 0, 3, 3, 4, 5] : List Rat) = .ok [[-1/2, 1, 5/2], [19/6, 25/6, 14/3]] := by decide +kernel
+example : boxcarND 2 2 none [2, 1, 3] ([0, 0, 3, 3, 4, 5] : List Rat) = .error .valueError := by decide +kernel
+example : boxcarND 0 2 none [2, 3] ([0, 0, 3, 3, 4, 5] : List Rat) = .error .unboundLocal := by decide +kernel
 
 /-- non-vacuity (and the former failing input): `[0, 0, 3]`, boxcar of length 2, keeps mean 1 -/
 example : boxcarFilter 2 none ([0, 0, 3] : List Rat) = [-1/2, 1, 5/2] := by decide +kernel
@@ -554,6 +626,42 @@ generated descriptors; re-checked whenever the translator output changes) -/
 theorem axis_all_methods :
     ["fir", "iir", "filtered_fourier", "filtered_boxcar"].map methodAxis
       = List.replicate 4 (some ⟨true, true, true⟩) := by decide
+
+/-! ### option handling (decided on the GENERATED tables: an edit of the source re-opens these) -/
+open Nitime.Generated in
+/-- every optional parameter reaches the external call it is documented for: `fir_win → firwin(window=)`,
+`gpass`, `gstop`, `iir_ftype → iirdesign(wp, ws, gpass, gstop, ftype=)`, `boxcar_iterations → boxcar_filter(n_iterations=)` -/
+theorem option_flow :
+    optionFlow = [some "fir_win", some "gpass", some "gstop", some "iir_ftype", some "boxcar_iterations"] := by decide
+
+open Nitime.Generated in
+/-- `ub` is tested against `None` in every method (never by truthiness, so an explicit `0.0` is an edge), the value used
+for `None` is the whole band (fraction 1, resp. the Nyquist frequency `Fs/2`), FIR / IIR edges are fractions of the
+Nyquist frequency and the boxcar's are fractions of the sampling rate — what `firBandFractions`, `filteredFourier`
+and the `boxcar` driver line of the model compute -/
+theorem ub_rule_all : C18Opts.ubRule =
+    [("fir", "isNotNone", "self.ub / (self.sampling_rate / 2.0)", "1.0"),
+     ("iir", "isNotNone", "self.ub / (self.sampling_rate / 2.0)", "1.0"),
+     ("filtered_fourier", "isNone", "self.ub", "self.sampling_rate / 2.0"),
+     ("filtered_boxcar", "isNotNone", "self.ub / self.sampling_rate", "1.0")] := by decide
+
+open Nitime.Generated in
+theorem lb_rule_all : C18Opts.lbRule =
+    [("fir", "self.lb / (self.sampling_rate / 2.0)"), ("iir", "self.lb / (self.sampling_rate / 2.0)"),
+     ("filtered_fourier", "self.lb"), ("filtered_boxcar", "self.lb / self.sampling_rate")] := by decide
+
+open Nitime.Generated in
+/-- `boxcar_filter`: `lb == 0` (any spelling of zero) switches the high-pass stage off; the stages are guarded by the
+truthiness of `ub` and of the (possibly `None`) `lb` — the branches of `boxcarFilter` / `boxcarND` -/
+theorem boxcar_guards : C18Opts.boxcarTests = ["lb == 0", "one_d", "ub", "lb"] := by decide
+
+open Nitime.Generated in
+/-- `filtfilt(b, a, in_ts)`: data, rate, start time and unit ALL come from `in_ts` when one is given (tested against
+`None`), otherwise all from the analyzer's own series -/
+theorem in_ts_rule : C18Opts.inTsRule =
+    [("test", "in_ts is not None"), ("then:data", "in_ts.data"), ("then:Fs", "in_ts.sampling_rate"), ("then:t0", "in_ts.t0"),
+     ("then:time_unit", "in_ts.time_unit"), ("else:data", "self._ts.data"), ("else:Fs", "self._ts.sampling_rate"),
+     ("else:t0", "self._ts.t0"), ("else:time_unit", "self._ts.time_unit")] := by decide
 
 /-- non-vacuity -/
 example : firPlan (10 : Rat) 1 (some 4) 8 40 = .ok (9, some (4/5), some (1/5)) := by decide +kernel
